@@ -117,9 +117,10 @@ def check(tier, seed):
                               dict(w, a=sorted(ch)[:4], b=sorted(ch2)[:4]), True)
     # --- C. hash-seed independence (subprocesses) ---------------------------------------------------------
     outs = []
-    code = ("import sys, json; sys.path.insert(0, %r); sys.path.insert(0, '/repo/src'); from vf.props import c20; from vf import schemas as S;"
+    code = ("import sys, json; sys.path.insert(0, %r); sys.path.insert(0, %r); from vf.props import c20; from vf import schemas as S;"
             "print(json.dumps([c20._changes(S.BASE_SDL, S.apply_edit(S.apply_edit(S.BASE_SDL, *S.EDITS[3][1:3]), *S.EDITS[22][1:3])),"
-            " c20._changes(S.BASE_SDL, S.apply_edit(S.BASE_SDL, *S.EDITS[0][1:3]))]))") % os.path.dirname(os.path.dirname(os.path.dirname(os.path.abspath(__file__))))
+            " c20._changes(S.BASE_SDL, S.apply_edit(S.BASE_SDL, *S.EDITS[0][1:3]))]))") % (
+        os.path.dirname(os.path.dirname(os.path.dirname(os.path.abspath(__file__)))), os.path.join(os.environ.get("VF_REPO") or "/repo", "src"))
     for hs in ("0", "1", "4242"):
         env = dict(os.environ, PYTHONHASHSEED=hs)
         out = subprocess.run([sys.executable, "-c", code], capture_output=True, text=True, env=env)
